@@ -48,7 +48,7 @@ SetTruncFaults(seed) ==
                 i \in {i \in 1..Len(seed.spans) : Structural(seed.spans[i]) /\ seed.spans[i].cls \in {"count", "length"}}}
 
 (* text seeds *)
-TextOps == {"addcell", "tag", "dupline", "delline", "nonutf8"}
+TextOps == {"addcell", "tag", "dupline", "delline", "nonutf8", "backslash"}
 TextFaults(seed) ==
     UNION {{<<<<op, l - 1>>>> : op \in TextOps}
            \cup {<<<<"dropcell", l - 1, c - 1>>>> : c \in 1..seed.cells[l]}
@@ -73,7 +73,7 @@ GrowSizes(kind, tier) ==
       [] kind = "ifc_args" -> {1, 126, 127, 128, 200, 255}
       [] kind = "method_args" -> {127, 128, 255, 256}
       [] kind = "labels" -> {0, 1, 2}             \* 0: every pc has a line number; 1: plus an exception range ending at code_length; 2: plus a local variable ending there
-      [] kind \in {"enigma_nest", "tiny_nest"} -> {1, 50, 3000} \cup (IF tier = 0 THEN {50000} ELSE {20000, 200000})
+      [] kind \in {"enigma_nest", "tiny_nest"} -> {1, 50, 2000, 6000} \cup (IF tier = 0 THEN {} ELSE {12000})      \* the text grows with the square
       [] kind \in {"fdesc_dims", "mdesc_dims"} -> {254, 255, 256, 100000}
       [] kind = "desc_args" -> {255, 256, 100000}
       [] OTHER -> {}
